@@ -404,6 +404,10 @@ def scope_api(prog):
                 look[f.path] = "option"
             elif rt == "bool":
                 look[f.path] = "bool"
+            elif rt.startswith("std::result::Result<") and ERR in rt \
+                    and (ERR, "Undefined") in ops.constructs_deep(prog, f, depth=1):
+                # the lookup reports the miss itself (`get(name) -> Result<SourcedValue>`)
+                look[f.path] = "result"
     return ins, look
 
 
@@ -422,6 +426,21 @@ def rule_R20_4(ctx):
             if c.is_ptr or c.res not in lookups:
                 continue
             n += 1
+            if lookups[c.res] == "result":
+                # the miss is an Undefined error built by the lookup itself;
+                # the caller can only propagate or wrap it ...
+                g_ = prog.fns[c.res]
+                silent = [u for u in ops.forward_users(f, c) if (u.res or "").split("::")[-1] in
+                          ("unwrap_or", "unwrap_or_else", "unwrap_or_default", "ok", "or", "is_ok", "is_err")
+                          or ((u.res or "").split("::")[-1] == "or_else"     # `.or_else(|e| Err(wrap(e)))` only re-wraps
+                              and ("std::result::Result", "Ok") in ops.block_constructs(prog, f, u.bb))]
+                r.inst("%s: miss of %s is reported by the lookup itself" % (f.path, c.res.split("::")[-1]))
+                if silent:
+                    r.fail("%s | miss-edge of %s undefined=False declares=False" % (f.path, c.res.split("::")[-1]),
+                           "%s discards the Undefined error of %s (%s)" % (f.path, c.res, silent[0].res), where=silent[0].loc)
+                else:
+                    r.ok()
+                continue
             if c.target is None or f.term(c.target)["k"] != "switch":
                 # combinator form: `scopes.get(name).ok_or_else(|| undefined(..))`
                 us = ops.forward_users(f, c)
